@@ -33,6 +33,7 @@
 #include <cstring>
 #include <cstddef>
 #include <cfloat>
+#include <cmath>
 #include <sys/time.h>
 #include <sys/wait.h>
 #include <unistd.h>
@@ -283,6 +284,97 @@ struct ScenePre : public cola::PreIteration {
     virtual bool operator()() { if (++calls > 1) rz.clear(); changed = calls <= 2; return true; }
 };
 
+// copy of the current scene: same node ids / rectangles, every path rebuilt from its (node, corner) sequence
+static void clone_scene(std::vector<topology::Node*> &tn, std::vector<topology::Edge*> &routes,
+                        std::vector<vpsc::Rectangle*> &rs2, std::vector<topology::Node*> &tn2, std::vector<topology::Edge*> &routes2)
+{
+    for (size_t i = 0; i < tn.size(); ++i) {
+        vpsc::Rectangle *r = tn[i]->rect;
+        rs2.push_back(new vpsc::Rectangle(r->getMinX(), r->getMaxX(), r->getMinY(), r->getMaxY()));
+        tn2.push_back(new topology::Node(tn[i]->id, rs2.back()));
+    }
+    for (size_t i = 0; i < routes.size(); ++i) {
+        topology::ConstEdgePoints pts;
+        routes[i]->getPath(pts);
+        std::vector<topology::EdgePoint*> eps;
+        for (size_t j = 0; j < pts.size(); ++j) eps.push_back(new topology::EdgePoint(tn2.at(pts[j]->node->id), pts[j]->rectIntersect));
+        routes2.push_back(new topology::Edge(routes[i]->id, routes[i]->idealLength, eps));
+    }
+}
+
+// "MI" line: observable behaviour of ColaTopologyAddon::moveTo against the loop model of coq/theories/Topology/MoveToModel.v
+//   model: repeat { one TopologyConstraints::solve() = VPSC solve, safe step with alpha = min maxSafeAlpha, one topology event } while interrupted,
+//          at most N times; then return the rectangle centres of the LAST state a safe step produced (no further move).
+//   reference = that loop transcribed with the library's own solve() on a copy of the scene made before the call, run until solve() is no longer
+//          interrupted (at most REF_MAX iterations, far beyond the addon's budget), node centres recorded after every iteration.
+//   MI <op> n=<nodes> coords_eq_centres=<0|1> coords_dev=<max |coords - centre|> at_final=<0|1> ref_iters=<k> ref_converged=<0|1> ref_exc=<0|1> match_first=<k|-1> match_last=<k|-1> pos_match=<k|-1>
+//           dev_min=<%g> dev_end=<%g> events=<change of the total number of path segments during moveTo: a lower bound on its topology events>
+//   coords_eq_centres: coords[] returned by moveTo == rect centres, exactly;  at_final: every rect centre == its variable's finalPosition (the last step
+//   had alpha = 1);  match_*: first / last reference iteration whose node centres (<= 1e-9) AND paths ((node, corner) sequences) equal those after moveTo;
+//   -1: the state moveTo left behind is not the state after ANY number of safe steps (pos_match: first iteration whose node centres alone match).  The iteration cap is not observable directly (loopBreaker is a local of moveTo): it is inferred as
+//   "match_last < ref_iters" (the reference went on, moveTo stopped) - on the unchanged tree then match_last == 100.
+static const int REF_MAX = 600;
+static long total_segments(std::vector<topology::Edge*> &routes)
+{
+    long s = 0;
+    for (size_t i = 0; i < routes.size(); ++i) s += (long) routes[i]->nSegments;
+    return s;
+}
+static std::string path_signature(std::vector<topology::Edge*> &routes)
+{
+    std::ostringstream o;
+    for (size_t i = 0; i < routes.size(); ++i) {
+        topology::ConstEdgePoints pts;
+        routes[i]->getPath(pts);
+        for (size_t j = 0; j < pts.size(); ++j) o << pts[j]->node->id << '.' << (int) pts[j]->rectIntersect << ' ';
+        o << '|';
+    }
+    return o.str();
+}
+static void move_info(const char *nm, vpsc::Dim d, std::vector<topology::Node*> &tn, std::vector<topology::Edge*> &routes, long segs_before,
+                      vpsc::Variables &vs, std::valarray<double> &coords, std::vector<topology::Node*> &tn2, std::vector<topology::Edge*> &routes2, vpsc::Variables &vs2, vpsc::Constraints &cs2)
+{
+    size_t n = tn.size();
+    int ceq = 1, atf = 1;
+    double cdev = 0;
+    for (size_t i = 0; i < n; ++i) {
+        double c = tn[i]->rect->getCentreD(d);
+        if (!(coords[tn[i]->id] == c)) ceq = 0;
+        if (!(fabs(coords[tn[i]->id] - c) <= cdev)) cdev = fabs(coords[tn[i]->id] - c);
+        if (!(fabs(vs[i]->finalPosition - c) <= 1e-9)) atf = 0;
+    }
+    std::vector<std::vector<double> > rec;
+    std::vector<std::string> recp;
+    std::string sig = path_signature(routes);
+    int ref_exc = 0, conv = 0;
+    try {
+        topology::setNodeVariables(tn2, vs2);
+        topology::TopologyConstraints tc(d, tn2, routes2, nullptr, vs2, cs2);
+        for (int it = 0; it < REF_MAX; ++it) {
+            bool intr = tc.solve();
+            std::vector<double> c(n);
+            for (size_t i = 0; i < n; ++i) c[i] = tn2[i]->rect->getCentreD(d);
+            rec.push_back(c);
+            recp.push_back(path_signature(routes2));
+            if (!intr) { conv = 1; break; }
+        }
+    } catch (...) {
+        ref_exc = 1;
+    }
+    int mf = -1, ml = -1, pm = -1;
+    double dmin = 1e300, dend = -1;
+    for (size_t k = 0; k < rec.size(); ++k) {
+        double dev = 0;
+        for (size_t i = 0; i < n; ++i) dev = std::max(dev, fabs(rec[k][i] - tn[i]->rect->getCentreD(d)));
+        if (dev <= 1e-9 && pm < 0) pm = (int) k + 1;
+        if (dev <= 1e-9 && recp[k] == sig) { if (mf < 0) mf = (int) k + 1; ml = (int) k + 1; }
+        if (dev < dmin) dmin = dev;
+        dend = dev;
+    }
+    printf("MI %s n=%zu coords_eq_centres=%d coords_dev=%g at_final=%d ref_iters=%zu ref_converged=%d ref_exc=%d match_first=%d match_last=%d pos_match=%d dev_min=%g dev_end=%g events=%ld\n",
+           nm, n, ceq, cdev, atf, rec.size(), conv, ref_exc, mf, ml, pm, rec.empty() ? -1.0 : dmin, dend, total_segments(routes) - segs_before);
+}
+
 static int run_scene(const std::vector<std::string> &lines)
 {
     std::vector<vpsc::Rectangle*> rs;
@@ -335,11 +427,23 @@ static int run_scene(const std::vector<std::string> &lines)
                     unsigned id; double des, w; is >> id >> des >> w;
                     vs.at(id)->desiredPosition = des; vs[id]->weight = w;
                 }
+                // reference for the MI line: a copy of the scene (same ids, same paths, same desired positions / weights) made BEFORE the call
+                std::vector<vpsc::Rectangle*> rs2;
+                std::vector<topology::Node*> tn2;
+                std::vector<topology::Edge*> routes2;
+                vpsc::Variables vs2(n);
+                vpsc::Constraints cs2;
+                clone_scene(tn, routes, rs2, tn2, routes2);
+                for (unsigned i = 0; i < n; ++i) {
+                    vs2[i] = new vpsc::Variable(i, vs[i]->desiredPosition, vs[i]->weight);
+                }
+                long segs_before = total_segments(routes);
                 topology::ColaTopologyAddon topo(tn, routes);
                 topo.moveTo(d, vs, cs, coords, nullptr);
+                dump(nm, tn, routes, es);
+                move_info(nm, d, tn, routes, segs_before, vs, coords, tn2, routes2, vs2, cs2);
                 for (size_t i = 0; i < vs.size(); ++i) delete vs[i];
                 for (size_t i = 0; i < cs.size(); ++i) delete cs[i];
-                dump(nm, tn, routes, es);
             } else if (cmd == "DRAG") {
                 int dim; unsigned nsteps; is >> dim >> nsteps;
                 vpsc::Dim d = dim == 0 ? vpsc::HORIZONTAL : vpsc::VERTICAL;
